@@ -160,7 +160,7 @@ def run_hist(cfg):
     """cfg: transport, ka, T, R, prior (tuple of PRIOR names), k (timeouts before the exception), delay (fraction of T)"""
     from ..proto import Session
     T, R = cfg['T'], cfg['R']
-    s = Session(dict(transport=cfg['transport'], ka=cfg['ka'], T=T, R=R))
+    s = Session(dict(transport=cfg['transport'], ka=cfg['ka'], T=T, R=R, same_command=bool(cfg.get('same_command'))))
     for name in cfg['prior']:
         if name == 'NEWLOOP':
             s.newloop()         # the object is used again from a new event loop (successive asyncio.run() calls)
@@ -205,6 +205,11 @@ def hist_configs(tier):
                                 yield dict(transport=tr, ka=ka, T=1, R=R, prior=prior, k=k, delay=delay)
                                 if any(x.startswith('rejected') for x in prior):
                                     yield dict(transport=tr, ka=ka, T=1, R=R, prior=prior, k=k, delay=delay, code=2)
+                                    if delay == 0:
+                                        # ... and the requests re-use ONE command object (as the inverter classes do with their
+                                        # block reads): refused with code 2 before, refused with another code / answered now
+                                        yield dict(transport=tr, ka=ka, T=1, R=R, prior=prior, k=k, delay=delay, code=6, same_command=True)
+                                        yield dict(transport=tr, ka=ka, T=1, R=R, prior=prior, k=k, delay=delay, code=3, same_command=True)
 
 
 def job_hist(cfgs):
@@ -215,7 +220,7 @@ def job_hist(cfgs):
         n += 1
         for clause, cause in vio:
             key = f"{clause}/{cfg['transport']}/ka={int(cfg['ka'])}/after:{'+'.join(sorted(set(cfg['prior'])))}" + \
-                ('/same-code-again' if cfg.get('code') == 2 else '')
+                ('/same-code-again' if cfg.get('code') == 2 else '') + ('/same-command-object' if cfg.get('same_command') else '')
             out.setdefault(key, []).append(dict(key=key, clause=clause, replay=dict(part='H', cfg=cfg),
                                                 detail=dict(cause=cause, prior=list(cfg['prior']), k=cfg['k'], delay=cfg['delay'])))
     res = []
